@@ -118,14 +118,19 @@ class C01(Check):
             if r.random() < 0.5:
                 ops.insert(r.randrange(len(ops) + 1), ("comment", r.choice([b"", b"c", b"archive comment", b"archive comment", b"C" * 65535])))
             progs.append(ops)
+        # one large incompressible write per compressing method (encoders accept such a buffer only partially)
+        for m in (8, 12, 93, 0):
+            progs.append([("file", b"big%d" % m, Opts(method=m)), ("write", bytes(r.randrange(256) for _ in range(300000 if m != 12 else 1100000)))])
         if self.tier == "thorough":
             for cnt in (65534, 65535, 65536, 70000):
                 progs.append([("file", b"e%d" % i, Opts()) for i in range(cnt)])
         # each program twice: explicit finish, and plain drop
         both = []
-        for ops in progs:
-            both.append(dict(ops=ops + [("finish",)]))
-            both.append(dict(ops=ops))
+        for j, ops in enumerate(progs):
+            # a third of the programs run over a sink that accepts writes only partially (never fails)
+            plan = bytes(r.choice([1, 2, 3, 7, 40, 255]) for _ in range(r.randrange(5, 400))) if j % 3 == 1 else None
+            both.append(dict(ops=ops + [("finish",)], plan=plan))
+            both.append(dict(ops=ops, plan=plan))
         lines, outs = wprog.with_tables(self.exes["debug"], both)
         cases = []
         for j in range(0, len(both), 2):
